@@ -1226,7 +1226,12 @@ func concatOp(a, b Value) (Value, error) {
 	}
 	_, ab := a.(Bytes)
 	_, bb := b.(Bytes)
-	if ab || bb {
+	// bytea || bytea, and bytea || <untyped literal> (the literal resolves to bytea). With a
+	// typed text operand Postgres picks text || anynonarray instead: the bytea is rendered
+	// in its text form (\x…) and the result is text.
+	_, aText := a.(Text)
+	_, bText := b.(Text)
+	if (ab || bb) && !aText && !bText {
 		x1, err := castValue(a, "bytea")
 		if err != nil {
 			return nil, err
